@@ -57,6 +57,17 @@ def gen_history_case(rng, length, with_invalid=True, queries=True, refless_scrip
             if ref is not None and u["scale"] is not None and w.classes[u["cls"]]["quantum"] is None:
                 ops.append(["q_conv", "1@" + sym, ref, MODE])
                 meta.append(dict(kind="q_conv_ref", sym=sym))
+        # pairs of units of one type (neither need be the reference unit):
+        # the factor is the ratio of the two scales, an exact rational
+        for n, c in w.classes.items():
+            us = [x for x in c["units"] if w.units[x]["scale"] not in (None, 0)]
+            if c["quantum"] is not None or len(us) < 3:
+                continue
+            for a, b in zip(us[1:], us[2:]):
+                ops.append(["q_conv", "1@" + a, b, MODE])
+                meta.append(dict(kind="q_conv_pair", sym=a, to=b))
+                ops.append(["q_conv", "1@" + b, a, MODE])
+                meta.append(dict(kind="q_conv_pair", sym=b, to=a))
         # rejected symbols stay unknown
         for st in steps:
             if st["expect"] == "err" and st["op"][0] == "new_unit":
@@ -123,6 +134,13 @@ def directory_oracle(case, impl, check_trace=True, check_dir=True):
             want = f"ok qty {u['scale']}@{ref}:{u['cls']}"
             if out != want:
                 fails.append({"site": "dir:convert-to-ref", "msg":
+                              f"1 {m['sym']} -> {out}, expected {want}"})
+        elif k == "q_conv_pair" and check_dir:
+            u, v = world["units"][m["sym"]], world["units"][m["to"]]
+            x = parse_rat(u["scale"]) / parse_rat(v["scale"])
+            want = f"ok qty {rat(x)}@{m['to']}:{v['cls']}"
+            if out != want:
+                fails.append({"site": "dir:convert-pair", "msg":
                               f"1 {m['sym']} -> {out}, expected {want}"})
         elif k == "unknown_sym":
             if out != "err ValueError":
